@@ -10,6 +10,7 @@ ASSUME = [
     "KMS = kms.NewStatic with the documented test master key (same ct|tag|nonce layout); AWS KMS envelopes (kmsKeks JSON) are not part of this engine",
     "revoked rows in direction sdk-to-ref are produced by the SDK's own metastore implementations: the chain written by a real session is copied through Metastore.Load / Metastore.Store into an empty store of the same channel with Revoked set (the SDK itself never revokes; the operator scripts do)",
     "region suffixes exist only on the DynamoDB metastores (ddbv1, ddbv2, grpc); timestamps are driven through the harness clock overlay (sdk-to-ref) or chosen by the reference writer (ref-to-sdk); their values are compared as decimal literals because they exceed TLC's 32-bit integers",
+    "in direction sdk-to-ref the driver is built with the clock overlay and sets the SDK's clock to the timestamp class + 7 s; the data row key's Created has to be exactly that second and the key rows' Created within a day below it (epoch SECONDS; the policy's creation-date precision is not prescribed)",
     "payloads are seeded pseudo-random bytes of the enumerated lengths; 'all payloads' is sampled by length class, AES-GCM itself is trusted",
 ]
 
@@ -83,7 +84,7 @@ def check(run: Run):
             os.remove(g.path)
     binary = run.gobin("wiredrv")
     trace = os.path.join(run.work, "trace.ndjson")
-    res = run.drv(["-in", cases, "-trace", trace, "-seed", str(run.seed)], timeout=3000, binary=binary)
+    res = run.drv(["-in", cases, "-trace", trace, "-seed", str(run.seed), "-clock"], timeout=3000, binary=binary)
     os.remove(cases)
     if res["evaluations"] == 0:
         raise Infra("no case reached the driver")
@@ -128,7 +129,7 @@ def replay(run: Run, finding):
                     lines.append(json.dumps(c))
     cp = run.write("case.json", "\n".join(lines) + "\n")
     binary = run.gobin("wiredrv")
-    run.drv(["-in", cp, "-trace", p, "-seed", str(run.seed)], binary=binary)
+    run.drv(["-in", cp, "-trace", p, "-seed", str(run.seed), "-clock"], binary=binary)
     rej2 = validate(run, p, "replay-now", 1)
     print("re-executed now:", ("rejected: %s; %s" % (", ".join(rej2[0][2]), json.dumps(rej2[0][1])[:800])) if rej2 else "accepted")
     return 1 if rej2 else 0
